@@ -1075,7 +1075,14 @@ def floor(x):
     if x.concrete:
         return math.floor(x.n)
     c = ctx()
+    # the same argument (syntactically, after simplification) gets the same unknown: floor is a function
+    memo = c.registry.setdefault('_floor_memo', {})
+    key = z3.simplify(tz(x.n) / tz(x.d)) if _isz(x.d) else z3.simplify(tz(x.n) / x.d)
+    hit = memo.get(key.get_id())
+    if hit is not None and hit[0].eq(key):
+        return SI(hit[1])
     k = z3.Int(c.fresh_name('floor'))
+    memo[key.get_id()] = (key, k)          # the key term is kept alive, so its id stays valid
     kr = R(z3.ToReal(k))
     lo = kr <= x
     hi = x < kr + 1
